@@ -201,6 +201,7 @@ def run(tier, seed):
         colb.merge(stepcheck.explore(fe2, [mon_feasible], H, 2, who_fn=lambda sp: stepcheck.default_who(sp, facilities=False), seed=seed))
     else:
         colb = stepcheck.explore(fe, [mon_feasible], H, D, who_fn=lambda sp: stepcheck.default_who(sp, facilities=False), seed=seed)
+    colb.merge(stepcheck.explore(stepcheck.edited_items(names=("team-add-target", "worker-skill", "task-work", "worker-absence-inplace", "worker-solo", "add-link")), [mon_feasible], 0, 0, seed=seed))
     inf = infeasible_items(tier)
     colc = stepcheck.explore(inf, [mon_infeasible], 2, 1, who_fn=lambda sp: ["P"], seed=seed)
     cuts = cut_items(tier)
